@@ -38,7 +38,7 @@ def run(tier):
     res.floor("C14.R1", 7 + 8)
     res.floor("C14.R2", 8)
     res.floor("C14.R3", 13)
-    res.floor("C14.R4", 2)
+    res.floor("C14.R4", 1)
     res.floor("C14.R5", 8)
     res.explanation = ("constant table of the 7 registered claim keys over all 17 constructors; every Serialize impl of a claim writes exactly one map entry (key field, value field); abstract interpretation of GenericBuilder::set_claim over "
                        "{empty key} x JSON variant x {one-entry map of that key}: stored under the claim's key with HashMap::insert, value = the entry's value for a one-entry map of that key, otherwise the serialised value itself; "
